@@ -11,6 +11,16 @@
 // The API object lives in memory through the whole script (that is "the corresponding library call sequence"); the tool goes
 // through write/read at every step.  After a reported grid-file difference the object is re-synchronised from the tool's file
 // so that one defect does not cascade.
+//
+// Keys:  output-differs:<cmd>:<family>   grid-file-differs:<cmd>:<family>   real-option-parsed-as-float:<option>:<cmd>
+//        outcome:tool-rejects-api-accepts:<class of the tool's ERROR line>   outcome:tool-accepts-api-throws:<cmd>:<family>:<exception>
+//        tool-abort:<sanitizer kind>:<top frames in the repo>   tool-abort:<cmd>:<family>:uncaught-<exception>:<frames>   tool-hang:<cmd>:<family>
+//        const-command-modified-grid:<cmd>   rejected-step-modified-grid:<cmd>   output-differs-only-after-write-read:<cmd>:<family>
+// Counted, not reported: a step that the API documents as an error and that the tool also refuses (ERROR + exit 1, or std::terminate with
+// the documented exception); a read-only / refused command that re-writes the grid file with the same content in the other format; a dense
+// numeric output that differs from the in-memory object by rounding only and equals bitwise the output of an API object that went
+// through write/read (the tool is faithful, the library is history dependent in the last bits).
+// Debugging: VF_TRACE=1 prints the command lines, VF_KEEP=1 stops the script at the first violation and keeps its directory.
 #include "monitors.hpp"
 #include "tsgExoticQuadrature.hpp"
 #include <spawn.h>
@@ -1129,7 +1139,7 @@ void exotic_script(Script &s, Gen &gen){
         p.opts = {s.sp("-depth"), std::to_string(depth), "-shift", num17(shift), s.sp("-weightfile"), s.gft, s.sp("-description"), desc};
         if (!float_exact(shift)) p.real_opts.push_back("shift");
         if (symmetric) p.opts.push_back(s.sp("-symmetric"));
-        std::string gfa = s.gfa; TasmanianSparseGrid const *G = &s.G;
+        TasmanianSparseGrid const *G = &s.G;
         p.api = [depth, shift, desc, symmetric, G](TasmanianSparseGrid &, Out &o, bool as_float){
             auto ct = TasGrid::getExoticQuadrature(depth, fl(shift, as_float), *G, desc.c_str(), symmetric);
             std::ostringstream ss; ct.write<mode_ascii>(ss); o.text = ss.str(); };
@@ -1157,7 +1167,7 @@ void mon_c16(CaseCtx &c, Rng &rng){
     s.keep = getenv("VF_KEEP") != nullptr;
     s.timeout_s = (int) argi("tool_timeout", 120);
     int max_points = c.thorough ? 400 : 160;
-    int kind = rng.range(0, 99); // 0..5 exotic quadrature, 6..19 quadrature-only scripts mixed in below
+    int kind = rng.range(0, 99); // 0..5: exotic quadrature script; 6..29: one or two -makequadrature commands in front of the grid script
     // configuration of the script
     GenOpts go; go.max_dims = 3; go.max_outs = 3; go.min_outs = 1; go.max_points = max_points; go.custom = true; go.max_depth = 6;
     Cfg cf = gen_cfg(rng, go);
